@@ -117,9 +117,10 @@ def run(ctx):
         lp = e.loops()
         if len(lp) != 1:
             raise AnalysisError(f"{ctx.where(g, e.node)}: rhs store outside the junction loop")
-        vid = ("bv", lp[0][1])
-        it = lp[0][2]
-        row = T.idx(T.attr(SELF, "map_vid_to_row"), vid)
+        ro = rules.roles(lp[0])
+        vid = ro.key_of()
+        it = ro.base if ro.kind in ("items", "plain") else lp[0][2]
+        row = ro.val if ro.kind == "items" else T.idx(T.attr(SELF, "map_vid_to_row"), vid)
         want = T.call(f"{TS}.calculate_velocity", (ts, vid, T.attr(T.attr(SELF, "frame"), "frame_id")))
         key = e.key
         if key[0] == "seq" and len(key[1]) == 2 and key[1][1] == T.num(0):
@@ -128,7 +129,7 @@ def run(ctx):
         comp = e.value[2] if e.value[0] == "idx" and e.value[1] == want else None
         rows[e] = (off, comp)
         V = want
-    it_ok = it in (T.attr(SELF, "map_vid_to_row"), T.call(("m", "keys"), (T.attr(SELF, "map_vid_to_row"),)))
+    it_ok = it == T.attr(SELF, "map_vid_to_row")
     offs = sorted((T.show(o), T.show(c) if c else "?") for o, c in rows.values())
     ctx.check(it_ok and offs == [("0", "0"), ("1", "1")], "ALIGN", f"{g.qualname} / ALIGN / velocity[0] -> row(junction), velocity[1] -> row(junction)+1",
               ctx.where(g), "loop over map_vid_to_row; b[row(vid)] = v(vid)[0], b[row(vid)+1] = v(vid)[1], v(vid) = calculate_velocity(vid, frame_id)",
@@ -141,8 +142,6 @@ def run(ctx):
         raise AnalysisError("set_velocity_matrix no longer returns (b, average_velocity) - re-bind the anchor")
     b_out, avg = ret[1]
     b0 = ("bv", 0)
-    if it is not None and it[0] == "call" and it[1] == ("m", "keys"):
-        it = it[2][0]
     if V is not None:
         V = T.substitute(V, {vid: b0})
     vv = ("map", V, b0, it, T.TRUE) if V is not None else None
